@@ -1,4 +1,6 @@
 """C08 - meshes are closed, oriented and enclose the volume (structural part)."""
+import re
+
 from .. import ast as A
 from .. import dualwalk as DW
 
@@ -100,6 +102,63 @@ def r2_merge_offsets(rule, root=None):
             rule.bad("merge|%s" % what[:28], "multithreaded merge: %s (`%s` not found)" % (what, frag[:60]), A.where(fn))
 
 
+
+def r4_collapse_guards(rule, root=None):
+    """what keeps collapsing from producing non-manifold or NaN output: a child leaf with more than one
+    dual vertex is never collapsed; an edge crossing with a NaN gradient (any lane) never enters the QEF
+    and marks the leaf with the very sentinel that `merge` refuses"""
+    fn = A.find_fn(OCT, "collapsible", self_ty="Octree", root=root)
+    hit = None
+    for m in A.find(fn["body"], "Match"):
+        for arm in m["arms"]:
+            segs, _ = A.pat_variant(arm["pat"])
+            if segs and segs[-2:] == ["Cell", "Leaf"]:
+                hit = txt(arm["body"]).fmatch("if(CELL_TO_VERT_TO_EDGES[$M.index()].len()>1){returnNone;}")
+                if hit is not None:
+                    names = {n["name"] for n in A.walk(arm["pat"]) if n.get("k") == "PIdent"} | {f.get("name") for n in A.walk(arm["pat"]) if n.get("k") == "PStruct" for f in n.get("fields", [])}
+                    if hit["$M"] not in names:
+                        hit = None
+    if hit is not None:
+        rule.ok("collapsible: a child leaf with more than one dual vertex is never collapsed", file=OCT, line=fn["ln"])
+    else:
+        rule.bad("collapse|multi-vertex child", "Octree::collapsible must return None as soon as a child leaf has more than one dual vertex (CELL_TO_VERT_TO_EDGES[mask].len() > 1): two sheets would share the parent's single vertex", A.where(fn))
+    leaf = A.find_fn(OCT, "leaf", self_ty="OctreeBuilder", root=root)
+    body = leaf["body"]
+    marks = [a for a in A.find(body, "Assign") if str(txt(a["left"])).endswith(".qef_err") and re.fullmatch(r"[A-Z][A-Z_0-9]*", str(txt(a["right"])))]
+    adds = [c for c in A.find(body, "MethodCall") if c["method"] == "add_intersection"]
+    ok = False
+    why = "no assignment to qef_err / no qef.add_intersection in OctreeBuilder::leaf"
+    sentinel = None
+    if len(marks) == 1 and len(adds) == 1:
+        conds = A.enclosing_conds(body, marks[0]) or []
+        sentinel = str(txt(marks[0]["right"]))
+        g = A.ident(A.strip(adds[0]["args"][1])) if len(adds[0]["args"]) == 2 else None
+        nan_any = [c for c in conds if re.fullmatch(r"%s\.iter\(\)\.any\(\|(\w+)\|\1\.is_nan\(\)\)" % re.escape(g or "?"), c)]
+        add_conds = A.enclosing_conds(body, adds[0]) or []
+        # the mark sits in a branch that leaves the loop before the QEF sees the sample
+        br = [i for i in A.find(body, "If") if any(n is marks[0] for n in A.walk(i["then"]))]
+        leaves = bool(br) and any(A.strip(A.stmt_expr(s_) or {}).get("k") in ("Break", "Continue", "Return") for s_ in br[-1]["then"]["stmts"])
+        if not nan_any:
+            why = "the sample is rejected under `%s`; it must be `%s.iter().any(|f| f.is_nan())`: one NaN lane is enough to poison the QEF" % (" && ".join(conds), g)
+        elif any(c in add_conds for c in nan_any):
+            why = "qef.add_intersection is still reached for a NaN gradient"
+        elif not leaves or br[-1]["ln"] > adds[0]["ln"]:
+            why = "the NaN branch must leave the loop before qef.add_intersection"
+        else:
+            ok = True
+    if ok:
+        rule.ok("leaf: a crossing with a NaN gradient lane never enters the QEF", file=OCT, line=leaf["ln"])
+    else:
+        rule.bad("collapse|nan-guard", "OctreeBuilder::leaf: %s" % why, A.where(leaf))
+    merge = A.find_fn(OCT, "merge", self_ty="LeafHermiteData", root=root)
+    m = txt(merge["body"]).fmatch("ifleafs.iter().any(|$V|($V.qef_err==$S)){returnNone;}".replace("$S", sentinel or "QEF_ERR_INVALID"))
+    consts = {c["name"]: str(txt(c.get("e") or c.get("init") or {})) for c in A.find_items(OCT, "Const", root=root) if c.get("name", "").startswith("QEF_ERR")}
+    if m is not None and sentinel and len(set(consts.values())) == len(consts) and sentinel in consts:
+        rule.ok("the NaN branch marks the leaf with `%s`, the value LeafHermiteData::merge refuses to collapse" % sentinel, file=OCT, line=merge["ln"])
+    else:
+        rule.bad("collapse|sentinel", "the NaN-gradient branch marks the leaf with `%s`, but LeafHermiteData::merge refuses to collapse only leaves marked with the sentinel it tests (QEF_ERR_INVALID); such a leaf would be merged with half-recorded intersections" % sentinel, A.where(merge))
+
+
 def run(ctx):
     r = ctx.rule("R1", "dual walk: every recursive face/edge call is geometrically consistent on the sub-cell lattice; frames are right-handed rotations", 39)
     ctx.guarded(r, DW.r1_dual_walk)
@@ -107,3 +166,5 @@ def run(ctx):
     ctx.guarded(r, r2_merge_offsets)
     r = ctx.rule("R3", "cells are full/empty only under strict interval guards; leaf corners sampled by identity; mask bit i = corner i inside", 11)
     ctx.guarded(r, r3_cells)
+    r = ctx.rule("R4", "collapse guards: multi-vertex children, NaN gradients kept out of the QEF, sentinel agreement with merge", 3)
+    ctx.guarded(r, r4_collapse_guards)
